@@ -26,6 +26,8 @@ def obligations(prop="C06"):
     only = RX("ford.sourceform.FortranModule.ONLY_RE", sf.FortranModule.ONLY_RE, "match")
     ospec = seq(ws0, lit(","), ws0, kw("only"), ws0, lit(":"), ws0, notcls({44, 10, 32, 9}), star(notcls({10})))
     out.append(only.covers(f"{prop}.B.ONLY_RE.covers", ospec, "`, only : x...` in any spacing/case is recognised as an ONLY clause"))
+    out.append(only.covers(f"{prop}.B.ONLY_RE.covers_empty_list", seq(ws0, lit(","), ws0, kw("only"), ws0, lit(":"), ws0),
+                           "`, only :` with an empty list is an ONLY clause too (it imports nothing)"))
     out.append(only.case_closed(f"{prop}.B.ONLY_RE.case_closed"))
     out.append(only.excludes(f"{prop}.B.ONLY_RE.excludes_rename", seq(ws0, lit(","), ws0, NAME, ws0, lit("=>"), ws0, NAME),
                              "a rename list `, a => b` is not an ONLY clause", within=SP.comp(seq(ws0, lit(","), ws0, kw("only"), ws0, lit(":"), star(notcls({10}))))))
